@@ -65,7 +65,7 @@ pub fn all_ops() -> Vec<EOp> {
     for k in 0..3 {
         v.push(EOp::AddData(k));
     }
-    for k in 0..3 {
+    for k in 0..4 {
         v.push(EOp::AddElem(k));
     }
     v.push(EOp::DeleteFirstExport);
@@ -640,7 +640,11 @@ fn apply_op(o: &mut EObj, op: &EOp) {
                 None => return,
             };
             o.unreferenced.retain(|a| !matches!(a, Added::Func(x) if *x == f));
-            let tab = m.tables.iter().find(|t| t.element_ty == RefType::Funcref && !t.table64 && t.initial >= 1).map(|t| t.id());
+            let mut tab = m.tables.iter().find(|t| t.element_ty == RefType::Funcref && !t.table64 && t.initial >= 1).map(|t| t.id());
+            if kind == 3 {
+                // an imported table when there is one
+                tab = m.tables.iter().find(|t| t.import.is_some() && t.element_ty == RefType::Funcref && !t.table64 && t.initial >= 1).map(|t| t.id()).or(tab);
+            }
             match (kind, tab) {
                 (0, _) | (_, None) if kind != 1 => {
                     let id = m.elements.add(ElementKind::Passive, ElementItems::Functions(vec![f]));
@@ -652,7 +656,11 @@ fn apply_op(o: &mut EObj, op: &EOp) {
                 (_, None) => {}
                 (_, Some(t)) => {
                     let id = m.elements.add(ElementKind::Active { table: t, offset: ConstExpr::Value(Value::I32(0)) }, ElementItems::Functions(vec![f]));
-                    m.tables.get_mut(t).elem_segments.insert(id);
+                    // kind 2 also records the segment in the table's own list, kind 3 only adds it
+                    // (`ModuleElements::add` asks for nothing more)
+                    if kind == 2 {
+                        m.tables.get_mut(t).elem_segments.insert(id);
+                    }
                 }
             }
         }
@@ -1048,6 +1056,11 @@ pub fn bases() -> Vec<(String, Vec<u8>)> {
         ("struct:elem=40,start=2".into(), fam::build_struct(&[("elem", 40), ("start", 2)])),
         // an active data segment and no instruction that needs a data-count section (so the input has none)
         ("active-data-no-count".into(), wgen::stateful::assemble(r#"(module (memory 1) (func (export "f") (i32.store (i32.const 0) (i32.const 1))) (data (i32.const 0) "a"))"#).unwrap()),
+        // an imported table, functions only a new element segment could make reachable
+        ("imported-table".into(), wgen::stateful::assemble(r#"(module (type $r (func (result i32))) (import "env" "t" (table $t 4 funcref))
+            (func $a (type $r) (i32.const 1))
+            (func $b (type $r) (i32.const 2))
+            (func (export "call") (param i32) (result i32) (call_indirect (type $r) (local.get 0))))"#).unwrap()),
         // types / globals / tables that only dead code uses: gc deletes them, a later edit re-creates them
         ("dead-types".into(), wgen::stateful::assemble(r#"(module
             (type $dead64 (func (result i64)))
@@ -1080,7 +1093,9 @@ pub fn recheck_as(oracle: &'static str, c: &Case) -> Vec<Violation> {
     match replay(&s, &h) {
         Ok((_, fs)) => fs.into_iter().map(|f| Violation::new(oracle, f.sig, f.detail, c)).collect(),
         Err(f) => {
-            if oracle != "C02" {
+            if oracle == "C04" && h.iter().all(|o| additive(o) || matches!(o, EOp::Gc)) {
+                vec![Violation::new("C04", format!("additions-never-emitted:panic:{}", f.sig.trim_start_matches("panic:")), f.detail, c)]
+            } else if oracle != "C02" {
                 vec![] // panics while editing / emitting are C02's
             } else {
                 vec![Violation::new("C02", format!("edit-{}", f.sig), f.detail, c)]
@@ -1116,6 +1131,11 @@ pub fn run_model_as(oracle: &'static str, args: &Args, ev: &mut Ev) -> Vec<Viola
         model.insert(name.clone(), json!({"states": st.states, "transitions": st.transitions, "merged": st.merged}));
         for f in found {
             let c = Case { family: "edits".into(), coords: name.clone(), wasm: wasm.clone(), cfg: json!({"edits": ops_json(&f.hist)}) };
+            // a history of additions (and gc) whose emission panics: what was added never reaches the output
+            if oracle == "C04" && f.finding.sig.starts_with("panic:") && f.hist.iter().all(|o| additive(o) || matches!(o, EOp::Gc)) {
+                viol.push(Violation::new(oracle, format!("additions-never-emitted:{}", f.finding.sig), f.finding.detail, &c));
+                continue;
+            }
             if oracle != "C02" && f.finding.sig.starts_with("panic:") {
                 continue;
             }
